@@ -1,7 +1,8 @@
 (** Properties of the signature opcodes proved about model/CheckSig.v (C06), part 3:
     - the digest is the specification's digest (spec/DigestSpec.v) of the script code;
-    - the script code: the opcodes after the last executed separator; legacy: minus separators and minus
-      smallest-form pushes containing the signature; FORKID flag + bit: untouched; which opcodes move the start;
+    - the script code: the opcodes after the last executed separator, minus the opcodes that ARE the push of
+      a signature not hashed with the FORKID digest (exact, FindAndDelete), and for the original digest minus
+      the separators; FORKID flag + bit: untouched; which opcodes move the start;
     - OP_CHECKMULTISIG consumes exactly n + m + 3 items; the run on a well-shaped stack;
     - the flag table: which defects of a (signature, key) pair are hard failures under which flags. *)
 From Coq Require Import List NArith ZArith Lia Bool ZifyN ZifyNat ZifyBool.
@@ -543,7 +544,7 @@ Inductive defect :=
 | ForkIdBit                (* hash type has bit 0x40 *)
 | NoForkIdBit              (* hash type lacks bit 0x40 *)
 | NotStrictDER             (* the bytes before the hash type are not BIP66 strict DER *)
-| HighS                    (* strict DER but S above half the group order *)
+| HighS                    (* strict DER, R and S below the group order, S above half of it *)
 | PubKeyShape              (* key neither 33 bytes starting 02/03 nor 65 bytes starting 04 *)
 | VerifyFails              (* key and signature parse (go-bk), ECDSA says no *)
 | Unparsable.              (* key or signature does not parse (go-bk) *)
